@@ -527,6 +527,51 @@ rule("D6.os_to_os_string",
      "shim_os_clone ( $recv )",
      "OsString (deref OsStr)::to_os_string(): an owned copy")
 
+rule("D6.osstr_from_bytes",
+     "OsStr :: from_bytes ( $(e) )",
+     "shim_osstr_from_bytes ( $(e) )",
+     "OsStrExt::from_bytes")
+
+rule("D6.position_byte",
+     "$recv . iter ( ) . position ( | & c | c == $b:char )",
+     "shim_position_byte ( $recv , $b )",
+     "slice.iter().position(|&c| c == BYTE): index of the first occurrence")
+
+rule("D6.lossy_owned",
+     "String :: from_utf8_lossy ( $(e) ) . into_owned ( )",
+     "shim_lossy_owned ( $(e) )",
+     "String::from_utf8_lossy(bytes).into_owned()")
+
+rule("D1.for_subslice",
+     "for $c:id in & $s:id [ $(a) .. $(b) ] {",
+     "let __s = & $s [ $(a) .. $(b) ] ; let mut __k : usize = 0 ; while __k < __s . len ( ) { let $c = & __s [ __k ] ; __k += 1 ;",
+     "for c in &S[a..b] {..} -> indexed while loop over the sub-slice taken once (break/continue keep their meaning: the index is advanced first)")
+
+rule("D6.string_starts_with_char",
+     "$recv . starts_with ( $c:char )",
+     "shim_string_starts_with_char ( & $recv , $c )",
+     "String::starts_with(char)")
+
+rule("D6.osstring_from_cmd",
+     "OsString :: from ( cmd )",
+     "shim_osstring_from_string ( cmd )",
+     "OsString::from(String) (error payload)")
+
+rule("D6.osstring_from_osstr",
+     "OsString :: from ( $(e) )",
+     "shim_osstring_from_osstr ( $(e) )",
+     "OsString::from(&OsStr)")
+
+rule("D6.string_from_utf8_os",
+     "String :: from_utf8 ( $x:id . as_bytes ( ) . to_vec ( ) )",
+     "shim_string_from_utf8_os ( $x )",
+     "String::from_utf8(os.as_bytes().to_vec())")
+
+rule("D6.opt_os_to_str",
+     "$recv . and_then ( OsStr :: to_str )",
+     "shim_opt_os_to_str ( $recv )",
+     "Option<&OsStr>::and_then(OsStr::to_str)")
+
 rule("D6.take_digits",
      "$recv . chars ( ) . take_while ( char :: is_ascii_digit ) . collect ( )",
      "shim_take_ascii_digits ( $recv )",
